@@ -1,7 +1,7 @@
 #!/bin/bash
 # usage: tools/seedcheck.sh C01 [extra checks...]  - confirm a seeded change in /tmp/seed_<id> and run the property's check on it
 id=$1; shift
-w=/tmp/seed_$id
+w=${SEED_PREFIX:-/tmp/seed}_$id
 cd $w || exit 2
 echo "== patch: $(git diff --stat -- odata_query | tail -1)"
 echo "== baseline with change: $(PYTHONPATH=$w /venv/bin/python -m pytest -q -p no:cacheprovider --no-cov --continue-on-collection-errors 2>&1 | tail -1)"
